@@ -487,6 +487,44 @@ func init() {
 		return []Outcome{e.errTuple(st, FloatV(0), numErr(e, st, "ParseFloat"))}
 	})
 
+	// io.ReadAll of a *bytes.Reader (possibly behind io.NopCloser) positioned at the start of a J2 document: the document
+	reg("io.ReadAll", func(e *Engine, st *State, args []Value, fn *ssa.Function) []Outcome {
+		iv := args[0].(*IfaceV)
+		for depth := 0; depth < 3 && iv != nil && iv.T != nil; depth++ {
+			if strings.HasSuffix(iv.T.String(), "bytes.Reader") {
+				p, ok := iv.V.(*PtrV)
+				if !ok || p.IsNil() {
+					break
+				}
+				rd := e.load(st, p).(*StructV)
+				sl, pos := rd.F[0].(*SliceV), rd.F[1].(*Term)
+				if !sl.IsNil() && pos.IsConst() && pos.Val == 0 {
+					if _, isDoc := e.get(st, sl.Obj).(*JDocV); isDoc {
+						e.store(st, &PtrV{Obj: p.Obj, Path: pathAppend(p.Path, 1)}, sl.N)
+						return []Outcome{e.errTuple(st, sl, nil)}
+					}
+				}
+				break
+			}
+			// wrappers such as io.nopCloser{Reader}
+			if sv, ok := iv.V.(*StructV); ok && len(sv.F) == 1 {
+				iv, _ = sv.F[0].(*IfaceV)
+				continue
+			}
+			break
+		}
+		return e.mergeOutcomes(e.execFunction(fn, args, nil, st))
+	})
+	reg("unicode/utf8.Valid", func(e *Engine, st *State, args []Value, fn *ssa.Function) []Outcome {
+		sl := args[0].(*SliceV)
+		if !sl.IsNil() {
+			if _, isDoc := e.get(st, sl.Obj).(*JDocV); isDoc {
+				return one(st, e.tb.True) // J2 documents are well-formed UTF-8 by construction (bound of the model)
+			}
+		}
+		return e.mergeOutcomes(e.execFunction(fn, args, nil, st))
+	})
+
 	// harness-side document builders
 	vpAPI["vpJObj"] = func(e *Engine, st *State, args []Value, fn *ssa.Function) []Outcome {
 		vs := e.variadicArgs(st, args[0])
